@@ -224,6 +224,11 @@ func runCase(c Case) (*runRes, error) {
 					}
 				}
 			}
+		case "addni":
+			if err := d.S.AddNetworkInstance(drv.NINames[st.NI]); err != nil {
+				addProblem(&res.problems, "AddNetworkInstance at run time: "+err.Error())
+			}
+			known[drv.NINames[st.NI]] = true
 		case "get":
 			if st.Get == nil {
 				res.obs = append(res.obs, o)
@@ -468,6 +473,9 @@ func caseCoq(c Case, r *runRes) string {
 		if v >= 2 && v <= 3 {
 			vr = append(vr, uint64(v))
 		}
+	}
+	if c.Late != 0 {
+		vr = append(vr, uint64(c.Late))
 	}
 	rg := "None"
 	if r.regetOK {
